@@ -83,24 +83,52 @@ FVs == IF Level >= 2 THEN FV ELSE <<"0", "-1", "1.23456789012345", "1e+300">>
 -----------------------------------------------------------------------------
 (* Writer primitives                                                         *)
 
-Rec(titled, tok)   == [w |-> "rec", t |-> titled, v |-> <<tok>>]     \* _recordWrite(os, title, v)
-RecI(titled, i)    == Rec(titled, IntTok(i))
-Vec(titled, toks)  == [w |-> "vec", t |-> titled, v |-> toks]        \* _recordWriteVec / _tableWrite
-VecI(titled, ints) == Vec(titled, [k \in DOMAIN ints |-> IntTok(ints[k])])
-Com(text)          == [w |-> "com", t |-> text, v |-> <<>>]          \* _commentWrite (text = FALSE: bare newline)
-Recs(toks)         == [k \in DOMAIN toks |-> Rec(FALSE, toks[k])]    \* untitled records: stay on the current line
+\* Every value written carries its ROLE (field r, parallel to v): what the specification knows of the domain of the field
+\*   "val"   a value without a domain of its own          "int"   an integer without a known domain
+\*   "count" a number of items that the rest of the file provides (lo = hi = the count)
+\*   "enum"  a code of an enumeration / a flag, valid codes lo..hi
+\*   "index" a rank into a container of the file, valid ranks lo..hi
+\* (the fault layer of C09 derives the boundary replacements of a token from its role)
+Role(k, lo, hi) == [k |-> k, lo |-> lo, hi |-> hi]
+RVal   == Role("val", 0, 0)
+RInt   == Role("int", 0, 0)
+RCount(n)     == IF n = ITEST THEN RInt ELSE Role("count", n, n)
+REnum(lo, hi) == Role("enum", lo, hi)
+RIndex(lo, hi) == Role("index", lo, hi)
+RHash  == Role("hash", 0, 0)
+RTag   == Role("tag", 0, 0)
 
-WStep(st, op) ==
-  CASE op.w = "rec" -> IF op.t THEN [lines |-> Append(st.lines, st.cur \o op.v \o <<HASH>>), cur |-> <<>>]
-                       ELSE [st EXCEPT !.cur = @ \o op.v]
-    [] op.w = "vec" -> LET s1 == IF op.t THEN [lines |-> Append(st.lines, Append(st.cur, HASH)), cur |-> <<>>] ELSE st
-                       IN [lines |-> Append(s1.lines, s1.cur \o op.v), cur |-> <<>>]
-    [] op.w = "com" -> [lines |-> Append(st.lines, IF op.t THEN Append(st.cur, HASH) ELSE st.cur), cur |-> <<>>]
+Rec(titled, tok)   == [w |-> "rec", t |-> titled, v |-> <<tok>>, r |-> <<RVal>>]     \* _recordWrite(os, title, v)
+RecI(titled, i)    == [Rec(titled, IntTok(i)) EXCEPT !.r = <<RInt>>]
+RecN(titled, n)    == [Rec(titled, IntTok(n)) EXCEPT !.r = <<RCount(n)>>]            \* a count
+RecE(titled, i, lo, hi) == [Rec(titled, IntTok(i)) EXCEPT !.r = <<REnum(lo, hi)>>]   \* a code of an enumeration, a flag
+Vec(titled, toks)  == [w |-> "vec", t |-> titled, v |-> toks, r |-> [k \in DOMAIN toks |-> RVal]]   \* _recordWriteVec / _tableWrite
+VecR(titled, toks, roles) == [w |-> "vec", t |-> titled, v |-> toks, r |-> roles]
+VecI(titled, ints) == VecR(titled, [k \in DOMAIN ints |-> IntTok(ints[k])], [k \in DOMAIN ints |-> RInt])
+VecN(titled, ints) == VecR(titled, [k \in DOMAIN ints |-> IntTok(ints[k])], [k \in DOMAIN ints |-> RCount(ints[k])])      \* counts
+VecX(titled, ints, lo, hi) == VecR(titled, [k \in DOMAIN ints |-> IntTok(ints[k])], [k \in DOMAIN ints |-> RIndex(lo, hi)])  \* ranks
+Com(text)          == [w |-> "com", t |-> text, v |-> <<>>, r |-> <<>>]  \* _commentWrite (text = FALSE: bare newline)
+Recs(toks)         == [k \in DOMAIN toks |-> Rec(FALSE, toks[k])]    \* untitled records: stay on the current line
+RecsR(toks, roles) == [k \in DOMAIN toks |-> [Rec(FALSE, toks[k]) EXCEPT !.r = <<roles[k]>>]]
+
+\* pv: the payload laid out (the values op.v, or their roles op.r), h: the comment mark in that payload
+WStepP(st, op, pv, h) ==
+  CASE op.w = "rec" -> IF op.t THEN [lines |-> Append(st.lines, st.cur \o pv \o <<h>>), cur |-> <<>>]
+                       ELSE [st EXCEPT !.cur = @ \o pv]
+    [] op.w = "vec" -> LET s1 == IF op.t THEN [lines |-> Append(st.lines, Append(st.cur, h)), cur |-> <<>>] ELSE st
+                       IN [lines |-> Append(s1.lines, s1.cur \o pv), cur |-> <<>>]
+    [] op.w = "com" -> [lines |-> Append(st.lines, IF op.t THEN Append(st.cur, h) ELSE st.cur), cur |-> <<>>]
+WStep(st, op) == WStepP(st, op, op.v, HASH)
 RECURSIVE WRun(_, _)
 WRun(st, ops) == IF ops = <<>> THEN st ELSE WRun(WStep(st, Head(ops)), Tail(ops))
 \* the file written by dumpToNF: tag line, then the records
 FileOf(tag, ops) == LET st == WRun([lines |-> <<tag>>, cur |-> <<>>], ops)
                     IN IF st.cur = <<>> THEN st.lines ELSE Append(st.lines, st.cur)
+\* the same layout with the role of every token instead of the token
+RECURSIVE RRun(_, _)
+RRun(st, ops) == IF ops = <<>> THEN st ELSE RRun(WStepP(st, Head(ops), Head(ops).r, RHash), Tail(ops))
+RolesOf(tag, ops) == LET st == RRun([lines |-> <<[k \in DOMAIN tag |-> RTag]>>, cur |-> <<>>], ops)
+                     IN IF st.cur = <<>> THEN st.lines ELSE Append(st.lines, st.cur)
 
 -----------------------------------------------------------------------------
 (* Reader primitives.  Reader state s = [i, j, ok, ev, o]: position (line i, *)
@@ -262,7 +290,7 @@ LocCanon(t) == LET r == LocIdentify(t) IN
 (* a name is a sequence of words (one word, unless it contains a blank).    *)
 
 W_DbPart(o) ==
-  <<RecI(TRUE, o.ncol), RecI(TRUE, o.nech), Vec(TRUE, o.locators), Vec(TRUE, Flat(o.names)), Com(TRUE)>>
+  <<RecN(TRUE, o.ncol), RecN(TRUE, o.nech), Vec(TRUE, o.locators), Vec(TRUE, Flat(o.names)), Com(TRUE)>>
   \o [e \in 1..o.nech |-> Vec(FALSE, o.rows[e])]
 
 RECURSIVE R_DbRows(_, _, _, _, _, _)
@@ -329,7 +357,7 @@ DbBuild(st, v) == [ncol |-> st.ncol, nech |-> st.nech, locators |-> v[1], names 
 -----------------------------------------------------------------------------
 (* Class Table (src/Matrix/Table.cpp).  o = [ncols, nrows, vals (by row)]    *)
 
-W_Table(o) == <<RecI(TRUE, o.ncols), RecI(TRUE, o.nrows)>>
+W_Table(o) == <<RecN(TRUE, o.ncols), RecN(TRUE, o.nrows)>>
               \o Flat([r \in 1..o.nrows |-> Recs([c \in 1..o.ncols |-> o.vals[(r - 1) * o.ncols + c]]) \o <<Com(FALSE)>>])
 R_Table(L, md, s0) ==
   LET s1 == RdI(L, md, s0, "ncols")
@@ -350,8 +378,8 @@ TableBuild(st, v) == [ncols |-> st.ncols, nrows |-> st.nrows, vals |-> v]
 (* o = [ndim, nx, x0, dx, angles] + the Db fields                           *)
 
 W_DbGrid(o) ==
-  <<RecI(TRUE, o.ndim), Com(TRUE)>>
-  \o Flat([d \in 1..o.ndim |-> <<RecI(FALSE, o.nx[d]), Rec(FALSE, o.x0[d]), Rec(FALSE, o.dx[d]), Rec(FALSE, o.angles[d]), Com(FALSE)>>])
+  <<RecN(TRUE, o.ndim), Com(TRUE)>>
+  \o Flat([d \in 1..o.ndim |-> <<RecN(FALSE, o.nx[d]), Rec(FALSE, o.x0[d]), Rec(FALSE, o.dx[d]), Rec(FALSE, o.angles[d]), Com(FALSE)>>])
   \o W_DbPart(o)
 
 RECURSIVE R_GridDims(_, _, _, _, _)
@@ -417,19 +445,22 @@ DbGridBuild(st, v) == LET nd == Len(st.nx)  ne == ProdSeq(st.nx)  b == 2 * nd + 
 (* o = [ndim, nvar, field, covs, drifts, means, covar0];                     *)
 (* cov = [type, range, param, aniso, coeffs, rot, rotmat, sill]              *)
 
+\* ECov: UNKNOWN = -2, FUNCTION = -1 (neither can stand in a file), then the 31 basic structures 0..30
+CovTypeMin == 0
+CovTypeMax == 30
+CovTypes   == CovTypeMin..CovTypeMax
 W_Model(o) ==
-  <<RecI(FALSE, o.ndim), RecI(FALSE, o.nvar), Rec(TRUE, o.field), RecI(TRUE, Len(o.covs)), RecI(TRUE, Len(o.drifts))>>
+  <<RecN(FALSE, o.ndim), RecN(FALSE, o.nvar), Rec(TRUE, o.field), RecN(TRUE, Len(o.covs)), RecN(TRUE, Len(o.drifts))>>
   \o Flat([c \in DOMAIN o.covs |-> LET cv == o.covs[c] IN
-        <<RecI(FALSE, cv.type), Rec(FALSE, cv.range), Rec(TRUE, cv.param), RecI(TRUE, cv.aniso)>>
+        <<RecE(FALSE, cv.type, CovTypeMin, CovTypeMax), Rec(FALSE, cv.range), Rec(TRUE, cv.param), RecE(TRUE, cv.aniso, 0, 1)>>
         \o (IF cv.aniso = 0 THEN <<>>
-            ELSE Recs(cv.coeffs) \o <<Com(TRUE), RecI(TRUE, cv.rot)>>
+            ELSE Recs(cv.coeffs) \o <<Com(TRUE), RecE(TRUE, cv.rot, 0, 1)>>
                  \o (IF cv.rot = 0 THEN <<>> ELSE Recs(cv.rotmat) \o <<Com(TRUE)>>))])
   \o [d \in DOMAIN o.drifts |-> Rec(TRUE, o.drifts[d])]
   \o (IF Len(o.drifts) <= 0 THEN [v \in 1..o.nvar |-> Rec(TRUE, o.means[v])] ELSE <<>>)
   \o Flat([c \in DOMAIN o.covs |-> Recs(o.covs[c].sill) \o <<Com(TRUE)>>])
   \o Recs(o.covar0) \o <<Com(TRUE)>>
 
-CovTypes   == {0, 1, 2, 3, 4, 5, 6, 7, 8, 9, 10, 11, 12, 13, 14, 15, 16, 17, 18, 19, 20, 21, 22, 23, 24, 25, 26, 27, 28, 29, 30}
 DriftNames == {"Universality_Condition", "Drift:x1", "Drift:x2", "Drift:x3"}
 
 \* the part of a basic structure read before the sills
@@ -540,7 +571,7 @@ ModelBuild(st, v) == LET nc == Len(st.covs) IN
 -----------------------------------------------------------------------------
 (* Neighbourhoods (src/Neigh)                                                *)
 
-W_NeighUnique(o) == <<RecI(TRUE, o.ndim)>>
+W_NeighUnique(o) == <<RecN(TRUE, o.ndim)>>
 \* ANeigh::_deserialize: setNDim(ndim) builds a space of the dimension read (any value is accepted by the real reader)
 R_ANeigh(L, md, s0) == LET s1 == RdI(L, md, s0, "ndim") IN
                        IF ~s1.ok THEN s1
@@ -551,15 +582,15 @@ R_ANeigh(L, md, s0) == LET s1 == RdI(L, md, s0, "ndim") IN
 R_NeighUnique(L, md, s0) == LET s1 == R_ANeigh(L, md, s0) IN
   Res(s1, [ndim |-> s1.o.ndim])
 
-W_NeighBench(o) == <<RecI(TRUE, o.ndim), Rec(TRUE, o.width)>>
+W_NeighBench(o) == <<RecN(TRUE, o.ndim), Rec(TRUE, o.width)>>
 R_NeighBench(L, md, s0) == LET s2 == RdD(L, md, R_ANeigh(L, md, s0), "width") IN
   Res(s2, [ndim |-> s2.o.ndim, width |-> s2.o.width])
 
-W_NeighCell(o) == <<RecI(TRUE, o.ndim), RecI(FALSE, o.nmini)>>
+W_NeighCell(o) == <<RecN(TRUE, o.ndim), RecI(FALSE, o.nmini)>>
 R_NeighCell(L, md, s0) == LET s2 == RdI(L, md, R_ANeigh(L, md, s0), "nmini") IN
   Res(s2, [ndim |-> s2.o.ndim, nmini |-> s2.o.nmini])
 
-W_NeighImage(o) == <<RecI(TRUE, o.ndim), RecI(FALSE, o.skip)>> \o Recs([d \in 1..o.ndim |-> IntTok(o.radius[d])]) \o <<Com(TRUE)>>
+W_NeighImage(o) == <<RecN(TRUE, o.ndim), RecI(FALSE, o.skip)>> \o Recs([d \in 1..o.ndim |-> IntTok(o.radius[d])]) \o <<Com(TRUE)>>
 R_NeighImage(L, md, s0) ==
   LET s1 == R_ANeigh(L, md, s0)
       s2 == RdI(L, md, s1, "skip")
@@ -576,10 +607,10 @@ MulTab == (<<"1", "2">> :> "2") @@ (<<"0.5", "2">> :> "1") @@ (<<"0.25", "2">> :
 Mul(a, r) == IF r = "1" THEN a ELSE IF <<a, r>> \in DOMAIN MulTab THEN MulTab[<<a, r>>] ELSE "prod?"
 
 W_NeighMoving(o) ==
-  <<RecI(TRUE, o.ndim), RecI(TRUE, o.sector), RecI(FALSE, o.nmini), RecI(FALSE, o.nmaxi), RecI(FALSE, o.nsect), RecI(FALSE, o.nsmax),
-    Com(TRUE), Rec(TRUE, o.radius), RecI(TRUE, o.aniso)>>
+  <<RecN(TRUE, o.ndim), RecE(TRUE, o.sector, 0, 1), RecI(FALSE, o.nmini), RecI(FALSE, o.nmaxi), RecI(FALSE, o.nsect), RecI(FALSE, o.nsmax),
+    Com(TRUE), Rec(TRUE, o.radius), RecE(TRUE, o.aniso, 0, 1)>>
   \o (IF o.aniso = 0 THEN <<>>
-      ELSE Recs(o.coeffs) \o <<Com(TRUE), RecI(TRUE, o.rot)>>
+      ELSE Recs(o.coeffs) \o <<Com(TRUE), RecE(TRUE, o.rot, 0, 1)>>
            \o (IF o.rot = 0 THEN <<>> ELSE Recs(o.rotmat) \o <<Com(TRUE)>>))
 R_NeighMoving(L, md, s0) ==
   LET s1 == R_ANeigh(L, md, s0) IN
@@ -631,12 +662,12 @@ NeighMovingBuild(st, v) ==
 
 DirSize(npas, nvar) == IF npas < 0 \/ npas > 40000 \/ nvar < 0 \/ nvar > 1000 THEN -1 ELSE npas * ((nvar * (nvar + 1)) \div 2)
 W_Vario(o) ==
-  <<RecI(TRUE, o.ndim), RecI(TRUE, o.nvar), RecI(TRUE, Len(o.dirs)), Rec(TRUE, o.scale), RecI(TRUE, 2), Com(TRUE)>>
+  <<RecN(TRUE, o.ndim), RecN(TRUE, o.nvar), RecN(TRUE, Len(o.dirs)), Rec(TRUE, o.scale), RecE(TRUE, 2, 0, 2), Com(TRUE)>>
   \o Recs(o.names) \o <<Com(FALSE), Com(TRUE)>>
   \o Flat([iv \in 1..o.nvar |-> Recs(SubSeq(o.vars, (iv - 1) * o.nvar + 1, iv * o.nvar)) \o <<Com(FALSE)>>])
   \o Flat([d \in DOMAIN o.dirs |-> LET dr == o.dirs[d] IN
-        <<Com(TRUE), RecI(TRUE, dr.regular), RecI(TRUE, dr.npas), RecI(FALSE, dr.optcode), Rec(TRUE, dr.tolcode), Rec(TRUE, dr.dpas),
-          Rec(TRUE, dr.toldis), RecI(TRUE, dr.grid)>>
+        <<Com(TRUE), RecE(TRUE, dr.regular, 0, 1), RecN(TRUE, dr.npas), RecE(FALSE, dr.optcode, 0, 2), Rec(TRUE, dr.tolcode), Rec(TRUE, dr.dpas),
+          Rec(TRUE, dr.toldis), RecE(TRUE, dr.grid, 0, 1)>>
         \o (IF dr.grid = 0 THEN <<Rec(TRUE, dr.tolang)>> \o Recs(dr.codir) \o <<Com(TRUE)>>
             ELSE Recs([k \in DOMAIN dr.grincr |-> IntTok(dr.grincr[k])]) \o <<Com(TRUE)>> \o Recs(dr.codir) \o <<Com(TRUE)>>)
         \o <<Com(TRUE)>>
@@ -736,9 +767,9 @@ VarioBuild(st, v) == [ndim |-> st.ndim, nvar |-> st.nvar, scale |-> v[1], names 
 (* Classes Polygons / PolyElem / PolyLine2D                                  *)
 (* o = [elems]; elem = [zmin, zmax, xy (sequence of <<x, y>>)]                *)
 
-W_PolyLine(xy) == <<RecI(TRUE, Len(xy))>> \o [k \in DOMAIN xy |-> Vec(FALSE, xy[k])]
+W_PolyLine(xy) == <<RecN(TRUE, Len(xy))>> \o [k \in DOMAIN xy |-> Vec(FALSE, xy[k])]
 W_PolyElem(e) == <<Rec(TRUE, e.zmin), Rec(TRUE, e.zmax)>> \o W_PolyLine(e.xy)
-W_Polygons(o) == <<RecI(TRUE, Len(o.elems))>> \o Flat([p \in DOMAIN o.elems |-> W_PolyElem(o.elems[p])])
+W_Polygons(o) == <<RecN(TRUE, Len(o.elems))>> \o Flat([p \in DOMAIN o.elems |-> W_PolyElem(o.elems[p])])
 
 RECURSIVE R_Points(_, _, _, _, _)
 R_Points(L, md, s, k, n) ==
@@ -788,8 +819,8 @@ PolyLine2DBuild(st, v) == [xy |-> [p \in 1..st.np |-> <<v[2 * p - 1], v[2 * p]>>
 (* DbLine (src/Db/DbLine.cpp) and DbGraphO (src/Db/DbGraphO.cpp): header + Db part *)
 
 NDimOf(locs) == Cardinality({k \in DOMAIN locs : locs[k] \in {"x1", "x2", "x3"}})
-W_DbLine(o) == <<RecI(TRUE, o.ndim), RecI(TRUE, Len(o.lines))>>
-               \o Flat([l \in DOMAIN o.lines |-> <<RecI(TRUE, Len(o.lines[l])), VecI(FALSE, o.lines[l])>>])
+W_DbLine(o) == <<RecN(TRUE, o.ndim), RecN(TRUE, Len(o.lines))>>
+               \o Flat([l \in DOMAIN o.lines |-> <<RecN(TRUE, Len(o.lines[l])), VecX(FALSE, o.lines[l], 0, o.nech - 1)>>])
                \o W_DbPart(o)
 RECURSIVE R_Lines(_, _, _, _, _)
 R_Lines(L, md, s, k, n) ==
@@ -805,7 +836,8 @@ R_DbLine(L, md, s0) ==
       db == R_DbPart(L, md, s3)
   IN Res(db, [ndim |-> db.o.ndim, lines |-> db.o.lines] @@ DbOf(db))
 
-W_DbGraphO(o) == <<RecI(TRUE, o.ndim), RecI(TRUE, Len(o.arcs))>> \o [a \in DOMAIN o.arcs |-> Vec(FALSE, o.arcs[a])] \o W_DbPart(o)
+W_DbGraphO(o) == <<RecN(TRUE, o.ndim), RecN(TRUE, Len(o.arcs))>>
+                 \o [a \in DOMAIN o.arcs |-> VecR(FALSE, o.arcs[a], <<RIndex(0, o.nech - 1), RIndex(0, o.nech - 1), RVal>>)] \o W_DbPart(o)
 RECURSIVE R_Arcs(_, _, _, _, _)
 R_Arcs(L, md, s, k, n) ==
   IF k > n \/ ~s.ok THEN s
@@ -872,7 +904,7 @@ ScalePsi(psi, r) == IF r # "0.5" THEN psi
 
 \* o.psi: the Hermite coefficients themselves (without the change of support r).  The first code wrote getPsiHns(), i.e.
 \* the coefficients multiplied by r^n; the repaired code writes them as they are
-W_AnamHermite(o) == W_AnamCont(o.cont) \o <<Rec(TRUE, o.rcoef), RecI(TRUE, Len(o.psi)),
+W_AnamHermite(o) == W_AnamCont(o.cont) \o <<Rec(TRUE, o.rcoef), RecN(TRUE, Len(o.psi)),
                                             Vec(TRUE, IF Repaired THEN o.psi ELSE ScalePsi(o.psi, o.rcoef))>>
 R_AnamHermite(L, md, s0) ==
   LET s1 == R_AnamCont(L, md, s0)
@@ -885,7 +917,7 @@ R_AnamHermite(L, md, s0) ==
   IN \* setPsiHns(hermite) stores the values read as the coefficients, setRCoef(r) stores r apart
      Res(s4, [cont |-> s4.o.cont, rcoef |-> s4.o.rcoef, psi |-> s4.o.psi])
 
-W_AnamEmpirical(o) == W_AnamCont(o.cont) \o <<RecI(TRUE, Len(o.z)), Rec(TRUE, o.sigma2e), Vec(TRUE, o.z), Vec(TRUE, o.y)>>
+W_AnamEmpirical(o) == W_AnamCont(o.cont) \o <<RecN(TRUE, Len(o.z)), Rec(TRUE, o.sigma2e), Vec(TRUE, o.z), Vec(TRUE, o.y)>>
 R_AnamEmpirical(L, md, s0) ==
   LET s1 == R_AnamCont(L, md, s0)
       s2 == RdI(L, md, s1, "ndisc")
@@ -895,7 +927,7 @@ R_AnamEmpirical(L, md, s0) ==
       s5 == TableRead(L, md, s4, "y", n)
   IN Res(s5, [cont |-> s5.o.cont, sigma2e |-> s5.o.sigma2e, z |-> s5.o.z, y |-> s5.o.y])
 
-W_AnamDiscreteIR(o) == <<RecI(TRUE, o.ncut), RecI(TRUE, o.ncut + 1), RecI(TRUE, o.nelem), Vec(TRUE, o.zcut), Vec(TRUE, o.stats), Rec(TRUE, o.rcoef)>>
+W_AnamDiscreteIR(o) == <<RecN(TRUE, o.ncut), RecN(TRUE, o.ncut + 1), RecN(TRUE, o.nelem), Vec(TRUE, o.zcut), Vec(TRUE, o.stats), Rec(TRUE, o.rcoef)>>
 R_AnamDiscreteIR(L, md, s0) ==
   LET s1 == RdI(L, md, s0, "ncut")
       s2 == RdI(L, md, s1, "nclass")
@@ -930,7 +962,8 @@ AnamDiscreteIRBuild(st, v) == [ncut |-> st.ncut, nelem |-> st.nelem, zcut |-> Su
 -----------------------------------------------------------------------------
 (* Meshes (src/Mesh)                                                         *)
 
-W_MeshEStandard(o) == <<RecI(TRUE, o.ndim), RecI(TRUE, o.napices), RecI(TRUE, o.npm), RecI(TRUE, o.nmeshes), Vec(TRUE, o.apices), VecI(TRUE, o.meshes)>>
+W_MeshEStandard(o) == <<RecN(TRUE, o.ndim), RecN(TRUE, o.napices), RecN(TRUE, o.npm), RecN(TRUE, o.nmeshes), Vec(TRUE, o.apices),
+                        VecX(TRUE, o.meshes, 0, o.napices - 1)>>
 R_MeshEStandard(L, md, s0) ==
   LET s1 == RdI(L, md, s0, "ndim")
       s2 == RdI(L, md, s1, "napices")
@@ -965,8 +998,8 @@ MeshEStandardBuild(st, v) == [ndim |-> st.ndim, napices |-> st.napices, npm |-> 
                               apices |-> v, meshes |-> st.meshes]
 
 W_MeshETurbo(o) ==
-  <<RecI(TRUE, o.ndim), VecI(TRUE, o.nx), Vec(TRUE, o.dx), Vec(TRUE, o.x0), Vec(TRUE, o.rotmat), RecI(TRUE, o.polar), RecI(TRUE, o.mode),
-    RecI(TRUE, o.nmesh), RecI(TRUE, 0), RecI(TRUE, o.ngrid), RecI(TRUE, 0)>>
+  <<RecN(TRUE, o.ndim), VecN(TRUE, o.nx), Vec(TRUE, o.dx), Vec(TRUE, o.x0), Vec(TRUE, o.rotmat), RecE(TRUE, o.polar, 0, 1), RecI(TRUE, o.mode),
+    RecN(TRUE, o.nmesh), RecN(TRUE, 0), RecN(TRUE, o.ngrid), RecN(TRUE, 0)>>
 R_MeshETurbo(L, md, s0) ==
   LET s1 == RdI(L, md, s0, "ndim")
       nd == Gd(s1, "ndim", 0)
@@ -1003,7 +1036,7 @@ MeshETurboBuild(st, v) == LET nd == Len(st.nx) IN
 -----------------------------------------------------------------------------
 (* Faults, Rule, RuleShift, FracEnviron                                      *)
 
-W_Faults(o) == <<RecI(TRUE, Len(o.faults))>> \o Flat([f \in DOMAIN o.faults |-> W_PolyLine(o.faults[f])])
+W_Faults(o) == <<RecN(TRUE, Len(o.faults))>> \o Flat([f \in DOMAIN o.faults |-> W_PolyLine(o.faults[f])])
 RECURSIVE R_FaultList(_, _, _, _, _)
 R_FaultList(L, md, s, k, n) ==
   IF k > n \/ ~s.ok THEN s
@@ -1047,8 +1080,10 @@ ValidRuleNodes(nodes) ==
   /\ \A k \in DOMAIN names : names[k] # "bad"
   /\ PrefixNeed(names, 1, 1) = 0
   /\ RuleRows(names, 1, 0, 0, 0, 0).rows = nodes
-W_RulePart(o) == <<RecI(TRUE, o.mode), Rec(TRUE, o.rho), RecI(TRUE, Len(o.nodes))>>
-                 \o Flat([k \in DOMAIN o.nodes |-> Recs([j \in 1..6 |-> IntTok(o.nodes[k][j])]) \o <<Com(TRUE)>>])
+\* a node: from_type, from_rank, from_vers, node_type (codes 0..2), node_rank, facies
+NodeRoles == <<REnum(0, 2), RInt, REnum(0, 2), REnum(0, 2), RInt, RInt>>
+W_RulePart(o) == <<RecE(TRUE, o.mode, 0, 2), Rec(TRUE, o.rho), RecN(TRUE, Len(o.nodes))>>
+                 \o Flat([k \in DOMAIN o.nodes |-> RecsR([j \in 1..6 |-> IntTok(o.nodes[k][j])], NodeRoles) \o <<Com(TRUE)>>])
 R_RulePart(L, md, s0) ==
   LET s1 == RdI(L, md, s0, "mode")
       s2 == RdD(L, md, s1, "rho")
@@ -1255,6 +1290,8 @@ Build(c, st, v) ==
     [] c = "CSV" -> CSVBuild(st, v)          [] c \in ExchangeFormats -> GridFmtBuild(st, v)
 
 FileW(c, o) == IF c = "CSV" THEN W_CSVLines(o) ELSE IF c \in ExchangeFormats THEN <<>> ELSE FileOf(Tag(c), WriteOps(c, o))
+\* the roles of the tokens of FileW(c, o), in the same layout (<<>>: no field of the format has a declared domain)
+RolesW(c, o) == IF c \in ExchangeFormats \cup {"CSV", "Raw"} THEN <<>> ELSE RolesOf(Tag(c), WriteOps(c, o))
 \* createFromNF: header check, then the class reader
 \* tag expected by the loader that exists for the class (RuleShift has no createFromNF: Rule::createFromNF is inherited)
 LoaderTag(c) == IF c = "RuleShift" THEN <<"Rule">> ELSE Tag(c)
@@ -1274,6 +1311,89 @@ VarioTraits(o) == IF \E d \in DOMAIN o.dirs : \E k \in DOMAIN o.dirs[d].vals : o
 Traits(c, o) == IF c \in {"Db", "DbGrid", "DbLine", "DbGraphO"} THEN DbTraits(o) ELSE IF c = "Vario" THEN VarioTraits(o) ELSE {}
 \* top-level fields in which two abstract objects of the same class differ
 DiffFields(a, b) == IF DOMAIN a # DOMAIN b THEN {"?"} ELSE {f \in DOMAIN a : a[f] # b[f]}
+
+-----------------------------------------------------------------------------
+(* C08, histories: the file written depends only on the CURRENT abstract content of the object, not on the way the     *)
+(* object reached it, nor on what the process wrote before.                                                            *)
+(*                                                                                                                     *)
+(* Classes with a Db part (Db, DbGrid, DbLine, DbGraphO).  Abstract edits of a content o:                              *)
+(*     A_Del(c, o, k)        deleteColumnByColIdx(k - 1)       A_Add(c, o, nm, vals)   addColumns(vals, nm)            *)
+(* The real object is more than its content: a column is reached through a user identifier (UID) that it keeps for     *)
+(* life.  Transcription of the members of Db that the writer goes through (src/Db/Db.cpp):                             *)
+(*     uidcol   UID -> rank of the column (0: the UID is free for ever)         [_uidcol, ranks from 1 here]            *)
+(*     names, cols   by column                                                 [_colNames, _array]                     *)
+(*     ploc     locator type -> UIDs in the order of the locator index          [_p[type]]                              *)
+(* C_New = an object as the API builds it (UIDs 1..ncol); C_Del / C_Add = deleteColumnByUID / addColumnsByConstant;     *)
+(* C_View = what Db::_serialize collects: getLocators (per column, through its UID), getName("*"), and per sample       *)
+(* getArrayBySample = the values of the UIDs of getAllUIDs() (live UIDs, in increasing order).                          *)
+(* LAW (checked by TLC in every state of MC_NeutralHist, then on the real library by replaying the histories in one    *)
+(* process):  FileW(c, C_View(concrete state)) = FileW(c, abstract content)  -- i.e. Write after any history = Write    *)
+(* of a fresh object with the same content.                                                                            *)
+
+HistClasses == {"Db", "DbGrid", "DbLine", "DbGraphO"}
+\* structures whose instances are used as starting points: at least one column, names and locators that survive a file
+HistStruct(c, st) == /\ c \in HistClasses /\ st.ncol >= 1
+                     /\ (c \in {"Db", "DbGrid"} => (st.nk = "plain" /\ st.lk = "plain"))
+
+RemoveAt(q, k) == SubSeq(q, 1, k - 1) \o SubSeq(q, k + 1, Len(q))
+\* the header of DbLine / DbGraphO holds the space dimension = number of coordinate columns
+FixNDim(c, o) == IF c \in {"DbLine", "DbGraphO"} THEN [o EXCEPT !.ndim = NDimOf(o.locators)] ELSE o
+\* deleting the column that holds locator (type, idx) renumbers the locators of the same type beyond it
+A_Del(c, o, k) ==
+  LET r  == LocIdentify(o.locators[k])
+      lc == RemoveAt(o.locators, k)
+  IN FixNDim(c, [o EXCEPT !.ncol = @ - 1,
+                          !.locators = [j \in DOMAIN lc |-> LET q == LocIdentify(lc[j]) IN
+                                          IF r.type # 0 /\ q.type = r.type /\ q.idx > r.idx THEN LocNameTok[<<q.type, q.idx - 1>>] ELSE lc[j]],
+                          !.names = RemoveAt(@, k),
+                          !.rows = [e \in DOMAIN @ |-> RemoveAt(@[e], k)]])
+\* a new column (no locator) behind the others
+A_Add(c, o, nm, vals) == [o EXCEPT !.ncol = @ + 1, !.locators = Append(@, NA), !.names = Append(@, <<nm>>),
+                                   !.rows = [e \in DOMAIN @ |-> Append(@[e], vals[e])]]
+
+LocTypes == 1..Len(SREF)
+C_New(o) ==
+  [hdr |-> o, nech |-> o.nech,
+   uidcol |-> [u \in 1..o.ncol |-> u],
+   names |-> o.names,
+   cols |-> [k \in 1..o.ncol |-> [e \in 1..o.nech |-> o.rows[e][k]]],
+   \* setLocatorByColIdx in the order of the locator indices
+   ploc |-> [t \in LocTypes |->
+              LET held == {k \in 1..o.ncol : LocIdentify(o.locators[k]).type = t}
+              IN [i \in 1..Cardinality(held) |-> CHOOSE k \in held : LocIdentify(o.locators[k]).idx = i - 1]]]
+C_NCol(cs) == Len(cs.names)
+C_UidOfCol(cs, k) == CHOOSE u \in DOMAIN cs.uidcol : cs.uidcol[u] = k
+\* deleteColumnByUID
+C_Del(cs, k) ==
+  LET uid == C_UidOfCol(cs, k) IN
+  [cs EXCEPT !.uidcol = [u \in DOMAIN @ |-> IF u = uid THEN 0 ELSE IF @[u] < k THEN @[u] ELSE @[u] - 1],
+             !.names = RemoveAt(@, k), !.cols = RemoveAt(@, k),
+             !.ploc = [t \in LocTypes |-> SelectSeq(@[t], LAMBDA u : u # uid)]]
+\* addColumnsByConstant + setColumnByUID: the new column takes the next UID (UIDs are never used again)
+C_Add(cs, nm, vals) ==
+  [cs EXCEPT !.uidcol = Append(@, C_NCol(cs) + 1), !.names = Append(@, <<nm>>), !.cols = Append(@, vals)]
+C_LocOfUid(cs, u) ==
+  IF \E t \in LocTypes : \E i \in DOMAIN cs.ploc[t] : cs.ploc[t][i] = u
+  THEN LET t == CHOOSE t \in LocTypes : \E i \in DOMAIN cs.ploc[t] : cs.ploc[t][i] = u
+           i == CHOOSE i \in DOMAIN cs.ploc[t] : cs.ploc[t][i] = u
+       IN IF <<t, i - 1>> \in DOMAIN LocNameTok THEN LocNameTok[<<t, i - 1>>] ELSE "loc?"
+  ELSE NA
+\* getAllUIDs
+C_LiveUids(cs) == SelectSeq([u \in DOMAIN cs.uidcol |-> u], LAMBDA u : cs.uidcol[u] > 0)
+\* what Db::_serialize collects from the object (the header of the derived class does not go through the columns)
+C_View(c, cs) ==
+  LET n    == C_NCol(cs)
+      live == C_LiveUids(cs)
+      locs == [k \in 1..n |-> C_LocOfUid(cs, C_UidOfCol(cs, k))]
+  IN FixNDim(c, [cs.hdr EXCEPT !.ncol = n, !.locators = locs, !.names = cs.names,
+                               !.rows = [e \in 1..cs.nech |-> [j \in DOMAIN live |-> cs.cols[cs.uidcol[live[j]]][e]]]])
+\* UIDs that are no longer 1..ncol: the object cannot be told from a fresh one by its content, but is not one
+C_Aged(cs) == C_LiveUids(cs) # [k \in 1..C_NCol(cs) |-> k]
+
+\* values of the columns added by the histories (step: rank of the edit in the history)
+HistVals == <<"5", "2.5", NA, "0.125">>
+HistCol(step, nech) == [e \in 1..nech |-> HistVals[((step + e) % 4) + 1]]
+HistName(step) == <<"h1", "h2", "h3", "h4", "h5", "h6", "h7", "h8">>[step]
 
 -----------------------------------------------------------------------------
 (* File names: ASerializable::buildFileName(status, filename) with the container and prefix settings               *)
@@ -1296,6 +1416,10 @@ PathCases == [k \in 1..12 |-> LET set == [container |-> ((k - 1) \div 6) = 1, pr
 (*   wrongclass(t) class tag replaced by t                                    *)
 (*   dupline(l) / dropline(l)                                                 *)
 (*   tagonly       the first line only (ended by a newline)                   *)
+(*   bound(k, t)   token k replaced by a value JUST OUTSIDE the domain that    *)
+(*                 the specification gives to its field (role of the token):   *)
+(*                 count n -> n-1, n+1; enumeration / flag lo..hi -> hi+1,     *)
+(*                 hi+2, lo-1; rank lo..hi -> hi+1, lo-1                       *)
 (* Tokens are numbered 1..N over the whole file (the tag is token 1).         *)
 
 NTok(L) == LET F[i \in 0..Len(L)] == IF i = 0 THEN 0 ELSE F[i-1] + Len(L[i]) IN F[Len(L)]
@@ -1311,7 +1435,7 @@ ApplyFault(L, ft) ==
   CASE ft.kind = "noop" -> L
     [] ft.kind = "trunc" ->
          LET p == TokPos(L, ft.k) IN SubSeq(L, 1, p[1] - 1) \o << SubSeq(L[p[1]], 1, p[2]) >>
-    [] ft.kind = "corrupt" ->
+    [] ft.kind \in {"corrupt", "bound"} ->
          LET p == TokPos(L, ft.k) IN [L EXCEPT ![p[1]][p[2]] = ft.t]
     [] ft.kind = "emptyline" ->
          LET p == TokPos(L, ft.k)  ln == L[p[1]] IN
@@ -1321,12 +1445,20 @@ ApplyFault(L, ft) ==
     [] ft.kind = "dupline"  -> SubSeq(L, 1, ft.k) \o <<L[ft.k]>> \o SubSeq(L, ft.k + 1, Len(L))
     [] ft.kind = "dropline" -> SubSeq(L, 1, ft.k - 1) \o SubSeq(L, ft.k + 1, Len(L))
 
-\* the faults of a file, numbered 1..NFaults(L): truncations, corruptions (8 replacement tokens per token; a replacement
-\* by the same token is the fault "noop"), empty lines, 2 wrong class tags, duplicated lines, dropped lines
-NFaults(L) == 10 * (NTok(L) - 1) + 2 + 2 * (Len(L) - 1) + 1
-FaultAt(L, c, j) ==
+\* boundary replacements of a token, from its role (at most 3)
+BoundInts(r) == CASE r.k = "count" -> <<r.lo - 1, r.lo + 1>>
+                  [] r.k = "enum"  -> <<r.hi + 1, r.hi + 2, r.lo - 1>>
+                  [] r.k = "index" -> <<r.hi + 1, r.lo - 1>>
+                  [] OTHER -> <<>>
+NBoundSlots == 3
+\* the faults of a file, numbered 1..NFaults(L, RL): truncations, corruptions (8 replacement tokens per token; a replacement
+\* by the same token is the fault "noop"), empty lines, 2 wrong class tags, duplicated lines, dropped lines, the first line
+\* alone, boundary replacements (3 slots per token; RL: roles of the tokens, <<>> when the format declares none)
+NFaults(L, RL) == 10 * (NTok(L) - 1) + 2 + 2 * (Len(L) - 1) + 1 + (IF RL = <<>> THEN 0 ELSE NBoundSlots * (NTok(L) - 1))
+FaultAt(L, RL, c, j) ==
   LET n1 == NTok(L) - 1
       nl == Len(L) - 1
+      nb == 10 * n1 + 2 + 2 * nl + 1
   IN IF j <= n1 THEN [kind |-> "trunc", k |-> j, t |-> ""]
      ELSE IF j <= 9 * n1 THEN
           LET idx == j - n1 - 1
@@ -1338,7 +1470,13 @@ FaultAt(L, c, j) ==
      ELSE IF j = 10 * n1 + 2 THEN [kind |-> "wrongclass", k |-> 1, t |-> "abc"]
      ELSE IF j <= 10 * n1 + 2 + nl THEN [kind |-> "dupline", k |-> j - (10 * n1 + 2) + 1, t |-> ""]
      ELSE IF j <= 10 * n1 + 2 + 2 * nl THEN [kind |-> "dropline", k |-> j - (10 * n1 + 2 + nl) + 1, t |-> ""]
-     ELSE [kind |-> "tagonly", k |-> 1, t |-> ""]                      \* the first line alone, with its end of line
+     ELSE IF j = nb THEN [kind |-> "tagonly", k |-> 1, t |-> ""]                      \* the first line alone, with its end of line
+     ELSE LET idx  == j - nb - 1
+              k    == (idx \div NBoundSlots) + 2
+              slot == (idx % NBoundSlots) + 1
+              bi   == BoundInts(TokAt(RL, k))
+          IN IF slot > Len(bi) \/ bi[slot] \notin IR \/ ToString(bi[slot]) = TokAt(L, k) THEN [kind |-> "noop", k |-> k, t |-> ""]
+             ELSE [kind |-> "bound", k |-> k, t |-> ToString(bi[slot])]
 
 \* events of the transcribed reader that are memory-unsafe or unbounded in the real code
 UnsafeEvents == {"vecOverflow", "allocNegative", "allocHuge", "allocUnbounded", "loopUnbounded", "writeUnsized", "useAfterClear", "gridSizeMismatch", "badEnum", "badDims", "emptyPolyline", "emptyHermite", "badIndex", "badGrid", "badRuleNodes", "namesMismatch", "nameHash"}
